@@ -22,6 +22,13 @@ MDown(c, N) == LET n == Count(c) IN
   ELSE IF N < 1 THEN Err("TrajectoryException")
   ELSE IF N = 1 THEN OK(<<1>>)
   ELSE OK([k \in 1..N |-> IF Bug = "down_noendpoint" THEN 1 + ((k - 1) * (n - 1)) \div N ELSE 1 + ((k - 1) * (n - 1)) \div (N - 1)])
+\* Named deviation of the code from exact arithmetic: np.linspace computes k * ((n-1)/(N-1)) in binary floating point and
+\* `dtype=int` truncates, so where the exact value is an integer strictly inside the range the product can come out one unit
+\* in the last place below it (n = 31, N = 23, k = 12: 11 * (30/22) = 14.999999999999998 -> 14).  MDownLo is the lowest answer
+\* this rounding can produce; the code's answer lies pointwise between MDownLo and MDown, and P allows all of them.
+MDownLo(c, N) == LET n == Count(c)  hi == MDown(c, N) IN
+  IF hi.out # "ok" \/ n <= N \/ N < 3 THEN hi
+  ELSE OK([k \in 1..N |-> IF k > 1 /\ k < N /\ ((k - 1) * (n - 1)) % (N - 1) = 0 THEN hi.ids[k] - 1 ELSE hi.ids[k]])
 \* ---- filter_by_motion loop
 MMotion(c, d, a) ==
   IF Count(c) < 2 THEN Err("FilterException") ELSE
@@ -84,9 +91,11 @@ Outcome(c) ==
     [] c.op = "merge" -> MMerge(c.ins)
 
 Init == pc = "call" /\ t \in Cases
-Run == /\ pc = "call" /\ pc' = "done" /\ t' = t @@ [o |-> Outcome(t)]
+Run == /\ pc = "call" /\ pc' = "done"
+       /\ t' = IF t.op = "down" THEN t @@ [o |-> Outcome(t), olo |-> MDownLo(t.c, t.N)] ELSE t @@ [o |-> Outcome(t)]
 Spec == Init /\ [][Run]_vars
 NonEmpty == t.op = "merge" => \E i \in DOMAIN t.ins : Len(t.ins[i]) > 0
 MImpliesP == (pc = "done" /\ NonEmpty) => Verdict(t) = "ok"
+MLoImpliesP == (pc = "done" /\ t.op = "down") => Verdict([t EXCEPT !.o = t.olo]) = "ok"
 EmitCases == (Emit /\ pc = "done" /\ NonEmpty) => PrintT(ToJson(t))
 ==============================================================================
